@@ -4,6 +4,7 @@ package main
 
 import (
 	"fmt"
+	"go/constant"
 	"go/token"
 	"go/types"
 	"strings"
@@ -950,7 +951,7 @@ func c09LenThreshold(v ssa.Value, set map[ssa.Value]bool) (int64, bool) {
 
 func c09R4(c *Ctx) {
 	const R4 = "C09.R4.sweep-guard"
-	c.Expect(R4, 9)
+	c.Expect(R4, 10)
 	h := c09FindHelpers(c, R4)
 	if h == nil {
 		return
@@ -999,6 +1000,8 @@ func c09R4(c *Ctx) {
 		return out
 	}
 	n := 0
+	knownFns := map[*ssa.Function]bool{}
+	registryTest := false
 	for _, host := range h.sweepHosts {
 		for _, rm := range Calls(host, func(n string) bool { return n == "os.Remove" || n == "os.RemoveAll" || n == "(*os.Root).Remove" }) {
 			n++
@@ -1098,17 +1101,70 @@ func c09R4(c *Ctx) {
 						if !isCall || len(call.Call.Args) != 1 || !c09ValEq(strip(call.Call.Args[0]), strip(v["alg"])) {
 							continue
 						}
+						if CalleeName(call) == "(digest.Algorithm).Available" {
+							known = append(known, t) // go-digest's own registry: every storable algorithm
+							registryTest = true
+							continue
+						}
 						if g := StaticCallee(call); g != nil && inModule(g) && len(StringConstsComparedWith(g, func(ssa.Value) bool { return true })) > 0 {
 							known = append(known, t)
+							knownFns[g] = true
 						}
 					}
 					return known
 				}, 2)
 				c.Check(R4, gn+"|remove-only-in-known-algorithm-dirs"+sfx, rm.Pos(), ok, ifelse(ok, "directories that are not a supported digest algorithm are skipped", "files below a directory that is not a supported algorithm can be removed"))
+				// constant-set agreement: the sweep visits every algorithm directory a blob can be stored under
+				// (Storage.Push accepts any digest that go-digest validates)
+				if ok {
+					want := c09DigestAlgorithms(c.P)
+					got := map[string]bool{}
+					for g := range knownFns {
+						for _, sv := range StringConstsComparedWith(g, func(ssa.Value) bool { return true }) {
+							got[sv] = true
+						}
+					}
+					var missing []string
+					for _, a := range want {
+						if !got[a] && !registryTest {
+							missing = append(missing, a)
+						}
+					}
+					switch {
+					case len(want) == 0:
+						c.LostAnchor(R4, "exported Algorithm constants of github.com/opencontainers/go-digest")
+					case len(missing) > 0:
+						c.Violation(R4, gn+"|sweep-covers-every-storable-algorithm"+sfx, rm.Pos(), "the sweep skips blobs/"+strings.Join(missing, ", blobs/")+
+							": go-digest registers "+strings.Join(want, ", ")+" and Storage.Push stores blobs under any of them, so unreachable blobs of the skipped algorithm survive GC (storage and graph diverge)")
+					default:
+						c.OK(R4, gn+"|sweep-covers-every-storable-algorithm"+sfx, rm.Pos(), "the algorithm directories visited by the sweep include every algorithm of the go-digest module in use: "+strings.Join(want, ", "))
+					}
+				}
 			}
 		}
 	}
 	c09R4GcIndex(c, R4, h)
+}
+
+// c09DigestAlgorithms: the values of the exported constants of type Algorithm of
+// the go-digest package the build uses (sha256, sha384, sha512 today), sorted.
+func c09DigestAlgorithms(p *Prog) []string {
+	tp := p.TypesPkg("github.com/opencontainers/go-digest")
+	if tp == nil {
+		return nil
+	}
+	set := map[string]bool{}
+	for _, name := range tp.Scope().Names() {
+		cst, ok := tp.Scope().Lookup(name).(*types.Const)
+		if !ok || !cst.Exported() || cst.Val().Kind() != constant.String {
+			continue
+		}
+		if named, ok := cst.Type().(*types.Named); !ok || named.Obj().Name() != "Algorithm" || named.Obj().Pkg() != tp {
+			continue
+		}
+		set[constant.StringVal(cst.Val())] = true
+	}
+	return c09SortedKeys(set)
 }
 
 // gcIndex pass 1: every ref != digest entry is kept (re-tagged by digest and by ref, re-indexed);
@@ -1507,6 +1563,9 @@ var c09Mutants = []Mutant{
 	{Name: "gcindex-keeps-unrooted-referrers", File: "content/oci/oci.go",
 		Old: "\t\t\tif graph.Exists(*subject) {", New: "\t\t\tif graph.Exists(*subject) || ref != \"\" {",
 		Expect: "C09.R4.sweep-guard|(*~/content/oci.Store).gcIndex|pass2-keeps-only-referrers-of-kept-nodes"},
+	{Name: "sweep-forgets-sha384", File: "content/oci/oci.go",
+		Old: "\tcase digest.SHA256, digest.SHA512, digest.SHA384:\n", New: "\tcase digest.SHA256, digest.SHA512:\n",
+		Expect: "C09.R4.sweep-guard|(*~/content/oci.Store).GC|sweep-covers-every-storable-algorithm"},
 	// R5
 	{Name: "gc-under-read-lock", File: "content/oci/oci.go",
 		Old:    "\ts.sync.Lock()\n\tdefer s.sync.Unlock()\n\n\t// get reachable nodes by reloading the index",
